@@ -16,7 +16,13 @@ for d in sorted(glob.glob(V + "/seeded/*")):
     try:
         r = subprocess.run("git -C %s apply %s/patch.diff" % (wt, d), shell=True, stdout=subprocess.PIPE, stderr=subprocess.STDOUT, text=True)
         if r.returncode != 0:
-            rows.append((sid, "PATCH DOES NOT APPLY", "")); continue
+            r = subprocess.run("git -C %s apply -3 %s/patch.diff" % (wt, d), shell=True, stdout=subprocess.PIPE, stderr=subprocess.STDOUT, text=True)
+            if r.returncode != 0 or "conflict" in r.stdout.lower():
+                rows.append((sid, "PATCH DOES NOT APPLY", "")); continue
+            subprocess.run("git -C %s reset -q" % wt, shell=True)
+            port = subprocess.run("git -C %s diff" % wt, shell=True, stdout=subprocess.PIPE, text=True).stdout
+            open(d + "/patch.diff", "w").write(port)      # keep the change applicable to the current tree
+            meta["ported_to_current_tree"] = True
         caught = {}
         for pid in pids:
             c = subprocess.run(["./check", pid], cwd=V, env=dict(os.environ, NFCPY_REPO=wt), stdout=subprocess.PIPE,
